@@ -61,7 +61,7 @@ def snp_events(run, tier, seed, tag, ks=None, n=None):
     """ks / n given: only the planted-SNP stratum, at those k (used by C09 for the 128-bit widths)."""
     rng = random.Random(seed)
     only_planted = ks is not None
-    ks = ks or [7, 9, 11, 13, 15, 17, 21, 25, 29, 31, 33, 35, 41, 63]
+    ks = ks or [7, 9, 11, 13, 15, 17, 21, 25, 29, 31, 33]          # C17 is stated for k in 7..33
     n = n or (26 if tier == "quick" else 300)
     sb = skacli.Sandbox(tag)
     events = []
